@@ -97,6 +97,7 @@ type cTx struct {
 	lb               []time.Time // lb[k]: lower bound of the clock reading taken for transmission k
 	writeFailed      bool
 	agentStartFailed bool
+	preWriteMessage  bool // a message with this id reached the handler before the request had been written: no real network can produce that
 	kc               bool // known-finding family K-c: a timeout callback for this id overlapped the processing of a datagram with this id or this transaction's own Start call
 	kcB              bool // a timeout event for this id began before the transaction's own Start call had completed its first write
 	kcA              bool // a datagram with this id was held / consumed by the reader while a timeout callback for the id was in progress
@@ -767,7 +768,7 @@ func (e *clientEngine) spontaneous() {
 		}
 		m := stun.MustBuild(stun.NewTransactionIDSetter(id), stun.BindingSuccess)
 		d = &cDatagram{data: append([]byte(nil), m.Raw...), kind: "one-bit-off-id-response"}
-		if base != nil && r.Pct(35, "odd-class-same-id") {
+		if base != nil && base.firstWriteOK && r.Pct(35, "odd-class-same-id") { // only ids the network has seen: a datagram can not carry the id of a request that was never written
 			// a message of another class (indication, request, error response)
 			// that carries the id of a transaction in flight: it is "the message
 			// with the same id" and completes that transaction
@@ -1083,7 +1084,11 @@ func (e *clientEngine) txHandler(tx *cTx) stun.Handler {
 		if len(tx.calls) > 1 {
 			e.fail(tx, "C10", "handler-twice", "handler of %s invoked %d times (events: %v then %v)", tx.name(), len(tx.calls), evDesc(tx.calls[0]), evDesc(c))
 		}
-		if tx.returned && tx.ret != nil {
+		if c.hasMsg && !tx.firstWriteOK {
+			tx.preWriteMessage = true
+			e.stats["probe_message_for_request_not_yet_written"]++
+		}
+		if tx.returned && tx.ret != nil && !tx.preWriteMessage {
 			e.fail(tx, "C10", "handler-after-start-error", "handler of %s invoked although the call returned error %v", tx.name(), tx.ret)
 		}
 		if e.closeOK != nil && e.closeOK.done && !e.lateCollectorTask() {
@@ -1393,7 +1398,7 @@ func (e *clientEngine) startTx3(tk *verifrt.Task, kind cTxKind, reuse *cTx, prot
 	}
 	r.Logf("return %s -> %v", tx.name(), err)
 	// C10: if the call returns an error the handler is never invoked
-	if err != nil && len(tx.calls) > 0 {
+	if err != nil && len(tx.calls) > 0 && !tx.preWriteMessage {
 		e.fail(tx, "C10", "start-error-after-handler", "%s returned error %v but its handler had already been invoked with %v", tx.name(), err, evDesc(tx.calls[0]))
 	}
 	if kind == txDo && err == nil && len(tx.calls) != 1 {
